@@ -1292,7 +1292,16 @@ func c17CustomValidators(c *Ctx) {
 			c.Bad("O17.10", fk(fn)+":compares-value-with-limit", fn.Pos(), "no (value, limit, ok) helper call followed by one comparison")
 			continue
 		}
-		f := Fact{Op: cmp.Op, X: cmp.X, Y: cmp.Y}.Canon() // X <= Y or X < Y
+		// `!(t < min)`: the comparison the function means is the negated one, and what it returns is the negation
+		var result ssa.Value = cmp
+		op := cmp.Op
+		if refs := cmp.Referrers(); refs != nil && len(*refs) == 1 {
+			if u, isU := (*refs)[0].(*ssa.UnOp); isU && u.Op == token.NOT {
+				result = u
+				op = negateTok(op)
+			}
+		}
+		f := Fact{Op: op, X: cmp.X, Y: cmp.Y}.Canon() // X <= Y or X < Y
 		isRes := func(v ssa.Value, idx int) bool { return DerivesOnly(v, false, IsResultOf(get, idx)) }
 		okDir := f.Op == token.LEQ && ((v.min && isRes(f.X, 1) && isRes(f.Y, 0)) || (!v.min && isRes(f.X, 0) && isRes(f.Y, 1)))
 		// the result is that comparison, and only where ok holds
@@ -1304,7 +1313,7 @@ func c17CustomValidators(c *Ctx) {
 				return
 			}
 			for _, r := range Roots(ret.Results[0], false) {
-				if r == ssa.Value(cmp) {
+				if r == result {
 					continue
 				}
 				if val, isC := ConstCond(r); isC && !val {
